@@ -159,6 +159,15 @@ Definition arp_process (s : st) (intf mac op dst : N) (target : ip) : drop :=
   else if negb (N.eqb dst bcast) && negb (N.eqb dst mac) then DEthDst
   else should_announce s target intf.
 
+(* The received frame as the responder sees it: the ETHERNET header's destination [f_eth_dst] and,
+   from the ARP payload, the operation, the target hardware address field [f_tha] and the target
+   protocol address.  The addressing filter of processRequest is on [f_eth_dst]; [f_tha] is carried
+   only to state that it plays no role (a unicast probe re-validating a neighbour entry is sent to
+   the node's MAC with a zero THA; a frame for another station may carry any THA). *)
+Record arp_frame := mk_arp_frame { f_eth_dst : N; f_op : N; f_tha : N; f_target : ip }.
+Definition arp_process_frame (s : st) (intf mac : N) (f : arp_frame) : drop :=
+  arp_process s intf mac (f_op f) (f_eth_dst f) (f_target f).
+
 (* ndpResponder.processRequest after a successful read *)
 Definition ndp_process (s : st) (intf : N) (is_solicitation has_source_ll : bool) (target : ip) : drop :=
   if negb is_solicitation then DMsgType
